@@ -103,6 +103,12 @@ def stepT (s : TState R) (toks : List String) : TState R × String :=
       ({ s with base := { s.base with names := (name, k) :: s.base.names } },
        C04.flag ok s!"v={Elem.render v} d={renderList specD}")
     | none => (s, "bad-ref")
+  | "debug" :: a :: _ =>
+    match s.base.names.find a with
+    | some k =>
+      -- one text per seeded run, in creation order of the inputs
+      (s, "dbg ## " ++ "|".intercalate (s.dss.map fun (_, ds) => debugDual (getDual ds k)))
+    | none => (s, "bad-ref")
   | "show" :: a :: _ =>
     match s.base.names.find a with
     | some k =>
